@@ -2,6 +2,7 @@
 import Verif.Common.Proto
 import Verif.C10.Model
 import Verif.C10.Mapper
+import Verif.C10.Iter
 import Verif.C10.Compose
 open Lean Verif.Proto Verif.C10 Verif.Py Verif.C10.Compose
 
@@ -82,6 +83,16 @@ def ofSchema (j : Json) : Except String Schema := do
       pure ({ name := ← getStr f "name", isInt := ← getBool f "int", isKey := ← getBool f "key" } : FieldS))
     pure ({ name, fields } : TableS))
 
+/-- `selector=`: absent / null = the task default -/
+def ofSel (j : Json) : Except String (Option (String × String)) :=
+  match j.getObjVal? "sel" with
+  | .ok (Json.null) => pure none
+  | .ok v => do
+    match (← v.getArr?).toList with
+    | [a, b] => pure (some (← a.getStr?, ← b.getStr?))
+    | _ => throw "bad selector"
+  | .error _ => pure none
+
 /-- one step of a history on the suite -/
 def doStep1 (sch : Schema) (s : Suite) (j : Json) : Except String (Suite × Option Err) := do
   let k ← getStr j "k"
@@ -114,7 +125,7 @@ def doStep1 (sch : Schema) (s : Suite) (j : Json) : Except String (Suite × Opti
     let b ← getInt j "b"
     let g ← getBool j "gz"
     let script ← (← getArr j "script").mapM ofResp
-    pure (processM sch s b g script)
+    pure (processM sch s b g script (← ofSel j))
   | _ =>
     let ti ← getNat j "t"
     let op : Op ← match k with
@@ -191,7 +202,7 @@ def doStepC1 (cd : Codec) (sch : Schema) (now : Nat) (cs : CSuite) (j : Json) :
     let b ← getInt j "b"
     let g ← getBool j "gz"
     let script ← (← getArr j "script").mapM ofResp
-    pure (processC cd sch now cs b g script)
+    pure (processC cd sch now cs b g script (← ofSel j))
   | _ =>
     let ti ← getNat j "t"
     let op : Op ← match k with
@@ -251,6 +262,7 @@ def obsTable (t : T) : Json :=
     ("gi", jList (fun i => jExc jRow (getItem t i)) (intRange (-n - 1) n)),
     ("tx", Json.bool (inTransaction t)),
     ("f", jRows t.file),
+    ("fr", jRows (freshView t)),
     ("gz", Json.bool t.gz)]
 
 def doQuery (s : Suite) (j : Json) : Except String Json := do
@@ -287,8 +299,26 @@ def phasesOf (sch : Schema) (s : Suite) (j : Json) : Except String Json := do
   | .ok "process" =>
     let b ← getInt j "b"
     let script ← (← getArr j "script").mapM ofResp
-    pure (jList obsPhase (processPhases sch s b script))
+    pure (jList obsPhase (processPhases sch s b script (← ofSel j)))
   | _ => pure Json.null
+
+/-- an iterator obtained (and advanced once) before a table operation and consumed after it -/
+def heldOf (s s' : Suite) (j : Json) : Json :=
+  match getBool j "hold", getNat j "t" with
+  | .ok true, .ok k =>
+    match s[k]?, s'[k]? with
+    | some t, some t' => let (a, b) := heldIter t t'; Json.arr #[jRows a, jRows b]
+    | _, _ => Json.null
+  | _, _ => Json.null
+
+/-- the processor calls of a completed `process`: datum cell and key columns per item -/
+def callsOf (sch : Schema) (s : Suite) (e : Option Err) (j : Json) : Except String Json := do
+  match getStr j "k", e with
+  | .ok "process", none =>
+    match processCalls sch s (← ofSel j) with
+    | .ok cs => pure (jList (fun c => Json.arr #[jNat c.1, jList (fun p => Json.arr #[Json.str p.1, jNat p.2]) c.2]) cs)
+    | .error _ => pure Json.null
+  | _, _ => pure Json.null
 
 def obsC (cs : CSuite) (s : Suite) (e : Option Err) (ot : List Nat) : Json :=
   Json.mkObj [("e", jOptErr e), ("T", jList (fun k => match cs[k]? with
@@ -304,6 +334,7 @@ def runSteps (cd : Codec) (sch : Schema) : Suite → CSuite → Nat → List Jso
     let o ← obs s' e (getNats j "ot") qs
     let ph ← phasesOf sch s j
     let o := (o.setObjVal! "P" ph).setObjVal! "R" (obsC cs' s' ec (getNats j "ot"))
+    let o := (o.setObjVal! "held" (heldOf s s' j)).setObjVal! "calls" (← callsOf sch s e j)
     let rest ← runSteps cd sch s' cs' now' js
     pure (o :: rest)
 
@@ -317,6 +348,7 @@ def handle (j : Json) : Except String Json := do
   let steps ← getArr j "steps"
   let init ← obs tables none (List.range tables.length) []
   let init := (init.setObjVal! "P" Json.null).setObjVal! "R" (obsC cs tables none (List.range tables.length))
+  let init := (init.setObjVal! "held" Json.null).setObjVal! "calls" Json.null
   let rest ← runSteps cd sch tables cs 10 steps
   pure (Json.arr (init :: rest).toArray)
 
